@@ -78,13 +78,19 @@ def confirm(cand: str) -> bool:
         drop(d)
 
 
-def run(ids: list[str], props: list[str] | None, tier: str) -> None:
+def run(ids: list[str], props: list[str] | None, tier: str, component: bool = False) -> None:
     root = os.path.join(VERIF, "seeded")
     ids = ids or sorted(os.listdir(root))
     for sid in ids:
         sdir = os.path.join(root, sid)
         meta = json.load(open(os.path.join(sdir, "meta.json")))
         targets = props or meta.get("check_props") or [meta["property"]]
+        if component:
+            # every property served by the same correspondence component (they share one cached component run)
+            sys.path.insert(0, VERIF)
+            from checks.run import PROP_COMPONENT
+            comp = PROP_COMPONENT[meta["property"]]
+            targets = sorted(p for p, c in PROP_COMPONENT.items() if c == comp)
         d = scratch_copy()
         repo = os.path.join(d, "repo")
         try:
@@ -110,18 +116,21 @@ if __name__ == "__main__":
         sys.exit(0 if confirm(sys.argv[2]) else 1)
     if len(sys.argv) >= 2 and sys.argv[1] == "run":
         args = sys.argv[2:]
-        props, tier, ids = None, "quick", []
+        props, tier, ids, component = None, "quick", [], False
         i = 0
         while i < len(args):
             if args[i] == "--props":
                 props = args[i + 1].split(",")
                 i += 2
+            elif args[i] == "--component":
+                component = True
+                i += 1
             elif args[i] == "--tier":
                 tier = args[i + 1]
                 i += 2
             else:
                 ids.append(args[i])
                 i += 1
-        run(ids, props, tier)
+        run(ids, props, tier, component)
         sys.exit(0)
     print(__doc__)
